@@ -369,7 +369,7 @@ def _campaign(ctx, entries, configs, trace_cfg, tag, again, window_ms, jobs, kno
             seq["conc"] = 1
             per = [None] * len(ents)
             start, rounds = 0, 0
-            while start < len(ents) and rounds < 4:
+            while start < len(ents) and rounds < 12:
                 rounds += 1
                 p2, i2 = run_config(ctx, exe, rs[start:], seq, "%s-c%d-%s-seq%d" % (tag, ci, t, rounds), window_ms=win,
                                     timeout=180 + 30 * win // 1000)
